@@ -1075,3 +1075,18 @@ benign('C12', 'stepping-loop-in-try-finally-pass', SV, """        for k in range
         finally:
             pass
 """)
+SCAN_OLD = """        self.__self_locking = False
+        for element in self.elements:
+            if isinstance(element, WormGear):
+                if element.self_locking:
+                    self.__self_locking = True
+"""
+mutant('C20', 'flag-as-not-all-is-false', PT, SCAN_OLD, """        worm_gears = [element for element in self.elements if isinstance(element, WormGear)]
+        self.__self_locking = not all(worm_gear.self_locking is False for worm_gear in worm_gears)
+""", 'C20.locking')
+benign('C20', 'flag-as-not-all-not-locking', PT, SCAN_OLD, """        worm_gears = [element for element in self.elements if isinstance(element, WormGear)]
+        self.__self_locking = not all(not worm_gear.self_locking for worm_gear in worm_gears)
+""")
+mutant('C13', 'flag-as-not-all-is-false', PT, SCAN_OLD, """        worm_gears = [element for element in self.elements if isinstance(element, WormGear)]
+        self.__self_locking = not all(worm_gear.self_locking is False for worm_gear in worm_gears)
+""", 'C13.flag-source')
